@@ -502,3 +502,40 @@ impl AnyStore {
         }
     }
 }
+
+/// Fill a document through the validated remote-insert path; returns the model of what it holds.
+/// The model is only used for classification by callers that compare against the real dump.
+pub fn populate(
+    rt: &tokio::runtime::Runtime,
+    store: &mut Store,
+    nssec: &NamespaceSecret,
+    entries: &[SignedEntry],
+) -> R<Model> {
+    let ns = nssec.id();
+    es(store.import_namespace(nssec.clone().into()))?;
+    let mut model = Model::default();
+    rt.block_on(async {
+        let mut r = es(store.open_replica(&ns))?;
+        for e in entries {
+            let exp = model.apply(e);
+            let got = r
+                .insert_remote_entry(e.clone(), [9u8; 32], iroh_docs::ContentStatus::Missing)
+                .await;
+            match (got, exp) {
+                (Ok(_), Some(_)) => {}
+                (Err(iroh_docs::sync::InsertError::NewerEntryExists), None) => {}
+                (g, x) => {
+                    return Err(format!(
+                        "populate: offering {} gave {:?}, model {:?} (C02 territory)",
+                        describe(e),
+                        g.map_err(|e| e.to_string()),
+                        x
+                    ))
+                }
+            }
+        }
+        Ok(())
+    })?;
+    store.close_replica(ns);
+    Ok(model)
+}
